@@ -1100,6 +1100,25 @@ def _equivalent_forms(gs):
             if f not in have:
                 have.add(f)
                 extra.append(f)
+    # `x.is_empty()` may be written `x.len() == 0`
+    for g in list(gs) + list(extra):
+        m = re.match(r"^(True|False)=(\w+)::is_empty\((.*)\)$", g)
+        if m:
+            val, ty, a = m.groups()
+            nval = "False" if val == "True" else "True"
+            forms = ["%s=Eq(%s::len(%s), const:0_usize)" % (val, ty, a), "%s=Eq(const:0_usize, %s::len(%s))" % (val, ty, a), "%s=Ne(%s::len(%s), const:0_usize)" % (nval, ty, a)]
+        else:
+            m = re.match(r"^(True|False)=(Eq|Ne)\((\w+)::len\((.*)\), const:0_usize\)$", g)
+            if not m:
+                continue
+            val, op, ty, a = m.groups()
+            if op == "Ne":
+                val = "False" if val == "True" else "True"
+            forms = ["%s=%s::is_empty(%s)" % (val, ty, a)]
+        for f in forms:
+            if f not in have:
+                have.add(f)
+                extra.append(f)
     return extra
 
 
